@@ -782,3 +782,161 @@ Proof.
 Qed.
 
 End StepsSim.
+
+(** ** Re-reading *)
+
+Lemma sim_norm : forall v, sim v (norm v).
+Proof.
+  fix IH 1. intros [ | b | z | s | [z|] t | t | l | m | z | md | l ]; cbn [norm];
+    try apply sim_refl; try (constructor; fail).
+  - apply sim_arr. induction l as [|a l IHl]; cbn [map]; constructor; [apply IH | exact IHl].
+  - apply sim_obj. induction m as [|[k v] m IHm]; cbn [map]; constructor;
+      [split; [reflexivity | apply IH] | exact IHm].
+Qed.
+
+Lemma osim_norm m : osim m (norm_obj m).
+Proof. pose proof (sim_norm (VObj m)) as H. cbn in H. apply sim_obj_l in H. destruct H as (m' & [= <-] & H). exact H. Qed.
+
+Lemma sim_norm_eq : forall a b, sim a b -> norm a = norm b.
+Proof.
+  fix IH 1. intros a b S. destruct a; inversion S; subst; try reflexivity.
+  - cbn [norm]. f_equal. match goal with F : Forall2 sim _ _ |- _ => clear S; revert l' F end.
+    induction l as [|x l IHl]; intros l' F; inversion F; subst; cbn [map]; [reflexivity|].
+    f_equal; [apply IH; assumption | apply IHl; assumption].
+  - cbn [norm]. f_equal. match goal with F : Forall2 _ _ _ |- _ => clear S; revert m' F end.
+    induction m as [|[k v] m IHm]; intros m' F; inversion F as [|? [k' v'] ? ? [E Sv] F']; subst; cbn [map]; [reflexivity|].
+    cbn in E, Sv. subst k'. f_equal; [cbn; f_equal; apply IH; assumption | apply IHm; assumption].
+  - cbn [norm]. rewrite map_map. reflexivity.
+Qed.
+
+Lemma osim_norm_eq m1 m2 : osim m1 m2 -> norm_obj m1 = norm_obj m2.
+Proof. intros H. pose proof (sim_norm_eq _ _ (sim_obj _ _ H)) as E. now injection E. Qed.
+
+(** ** Splitting a run *)
+
+Lemma run_steps_app l1 l2 m :
+  run_steps (l1 ++ l2) m = (x <- run_steps l1 m ;; run_steps l2 x).
+Proof.
+  revert m. induction l1 as [|s l1 IH]; intros m; cbn; [reflexivity|].
+  destruct (s (Some m)); cbn; auto.
+Qed.
+
+Lemma firstn_plus {A} a b : forall l : list A, firstn (a + b) l = firstn a l ++ firstn b (skipn a l).
+Proof. induction a as [|a IH]; intros [|x l]; cbn; try reflexivity; [now destruct b | now rewrite IH]. Qed.
+
+Lemma skipn_plus {A} a b : forall l : list A, skipn (a + b) l = skipn b (skipn a l).
+Proof. induction a as [|a IH]; intros [|x l]; cbn; try reflexivity; [now destruct b | apply IH]. Qed.
+
+Section Path.
+Variable O : oracles.
+
+Lemma upgrade_split cur k tgt m : (cur <= k <= tgt)%nat ->
+  upgrade O cur tgt m = (x <- upgrade O cur k m ;; upgrade O k tgt x).
+Proof.
+  intros R. unfold upgrade. rewrite <- run_steps_app. f_equal.
+  replace (tgt - cur)%nat with ((k - cur) + (tgt - k))%nat by lia.
+  rewrite firstn_plus. f_equal. f_equal. rewrite <- skipn_plus. f_equal. lia.
+Qed.
+
+(** Upgrade in one run, or to [k], through the file, and on: the same file. *)
+Lemma upgrade_path_independent cur k tgt m a : (cur <= k <= tgt)%nat ->
+  upgrade O cur tgt m = Ok a ->
+  exists b c, upgrade O cur k m = Ok b /\ upgrade O k tgt (norm_obj b) = Ok c /\ norm_obj c = norm_obj a.
+Proof.
+  intros R H. rewrite (upgrade_split cur k tgt m R) in H.
+  destruct (upgrade O cur k m) as [b| |] eqn:E; cbn [bind] in H; try discriminate.
+  assert (F : Forall step_sim (firstn (tgt - k) (skipn k (map snd (steps O))))).
+  { apply Forall_firstn, Forall_skipn, steps_sim. }
+  destruct (run_steps_sim _ F _ _ _ (osim_norm b) H) as (c & Hc & S).
+  exists b, c. repeat split; auto. symmetry. now apply osim_norm_eq.
+Qed.
+
+(** The same for any in-memory tree and its re-read form: what a step leaves
+    in memory and what a later run reads from the file lead to the same file. *)
+Lemma upgrade_respects_reread cur tgt m a :
+  upgrade O cur tgt m = Ok a ->
+  exists c, upgrade O cur tgt (norm_obj m) = Ok c /\ norm_obj c = norm_obj a.
+Proof.
+  intros H.
+  assert (F : Forall step_sim (firstn (tgt - cur) (skipn cur (map snd (steps O))))).
+  { apply Forall_firstn, Forall_skipn, steps_sim. }
+  destruct (run_steps_sim _ F _ _ _ (osim_norm m) H) as (c & Hc & S).
+  exists c. split; auto. symmetry. now apply osim_norm_eq.
+Qed.
+
+End Path.
+
+(** ** [Migrate] in one run and in two *)
+
+Definition version_of (m : obj) : Z :=
+  zint (fv_val TInt (field_val TInt m "schema_version")) mod 2 ^ 64.
+
+Section MigratePath.
+Variable O : oracles.
+
+Lemma migrate_unfold top t :
+  field_val TInt (input_map top) "schema_version" <> FErr ->
+  version_of (input_map top) < t <= last_version ->
+  migrate O top t =
+    match upgrade O (Z.to_nat (version_of (input_map top))) (Z.to_nat t) (input_map top) with
+    | Ok m' => ONew m' | Err => OErr | Panic => OPanic
+    end.
+Proof.
+  unfold migrate, version_of. fold (input_map top). intros N R.
+  destruct (field_val TInt (input_map top) "schema_version") eqn:E; [| |congruence];
+  cbn [fv_val] in *;
+  (destruct (_ >? t) eqn:E1; [lia|]); (destruct (t >? last_version) eqn:E2; [lia|]);
+  (destruct (_ =? t) eqn:E3; [lia|]); reflexivity.
+Qed.
+
+Lemma migrate_new_inv' top t a :
+  migrate O top t = ONew a ->
+  field_val TInt (input_map top) "schema_version" <> FErr /\
+  version_of (input_map top) < t <= last_version /\
+  upgrade O (Z.to_nat (version_of (input_map top))) (Z.to_nat t) (input_map top) = Ok a.
+Proof.
+  unfold migrate, version_of. fold (input_map top).
+  destruct (field_val TInt (input_map top) "schema_version") eqn:E; [| |discriminate];
+  cbn [fv_val];
+  (destruct (_ >? t) eqn:E1; [discriminate|]); (destruct (t >? last_version) eqn:E2; [discriminate|]);
+  (destruct (_ =? t) eqn:E3; [discriminate|]);
+  (destruct (upgrade O _ _ _) eqn:E4; try discriminate); intros [= ->];
+  (split; [discriminate|]); (split; [unfold last_version in *; lia | reflexivity]).
+Qed.
+
+Theorem migrate_path_independent top t k a :
+  migrate O top t = ONew a -> version_of (input_map top) < k < t ->
+  exists b c, migrate O top k = ONew b /\
+              migrate O (Some (norm_obj b)) t = ONew c /\
+              norm_obj c = norm_obj a.
+Proof.
+  intros H Rk. destruct (migrate_new_inv' _ _ _ H) as (N & R & U).
+  assert (V0 : 0 <= version_of (input_map top)) by (apply Z.mod_pos_bound; lia).
+  unfold last_version in R.
+  assert (Rn : (Z.to_nat (version_of (input_map top)) <= Z.to_nat k <= Z.to_nat t)%nat) by lia.
+  assert (Rs : (Z.to_nat (version_of (input_map top)) < Z.to_nat k <= 29)%nat) by lia.
+  destruct (upgrade_path_independent O _ _ _ _ _ Rn U) as (b & c & U1 & U2 & E).
+  exists b, c. split; [|split; [|exact E]].
+  - rewrite migrate_unfold by (unfold last_version; auto; lia). now rewrite U1.
+  - assert (S : get "schema_version" (norm_obj b) = Some (VInt k)).
+    { rewrite get_norm_obj, (upgrade_stamped O _ _ _ _ Rs U1). cbn. do 2 f_equal. lia. }
+    assert (F : field_val TInt (norm_obj b) "schema_version" = FOk (VInt k)).
+    { unfold field_val. now rewrite S. }
+    assert (V : version_of (norm_obj b) = k).
+    { unfold version_of. rewrite F. cbn [fv_val zint]. apply Z.mod_small. lia. }
+    rewrite migrate_unfold; cbn [input_map]; [|congruence|unfold last_version; lia].
+    rewrite V. now rewrite U2.
+Qed.
+
+End MigratePath.
+
+(** A concrete split run (premises satisfiable, typed values in play): version
+    22 to 29 through a file at version 28, which holds the typed upstream mode
+    as plain text. *)
+Example doc22_split :
+  exists a b c,
+    migrate oracles0 (Some doc22) 29 = ONew a /\ migrate oracles0 (Some doc22) 28 = ONew b /\
+    migrate oracles0 (Some (norm_obj b)) 29 = ONew c /\ norm_obj c = norm_obj a /\
+    get "dns" b = Some (VObj [("upstream_mode", VMode MParallel)]) /\
+    get "dns" (norm_obj b) = Some (VObj [("upstream_mode", VStr "parallel")]).
+Proof. do 3 eexists. repeat split; vm_compute; reflexivity. Qed.
